@@ -15,6 +15,8 @@ def main():
     sched_lib.install()
     outs = sched_lib.corpus(ck, 1500 if ck.thorough else 150)
     outs += sched_lib.stub_fast(ck.rng, 4000 if ck.thorough else 600)
+    outs += sched_lib.stub_builder(ck.rng, 6000 if ck.thorough else 800)
+    outs += sched_lib.stub_tusage(ck.rng, 3000 if ck.thorough else 400)
     st = sched_lib.stage(ck, outs)
     ck.finish(dict(st, evaluations=st["sched_model_requests"] + st["sched_spec_requests"], distinct_nontrivial=st["sched_distinct_nontrivial"],
                    programs=len(outs),
